@@ -1,11 +1,14 @@
-"""Gen/Loops.lean: inventory of every loop in the terminal-stream code whose trip count can depend on the input
-(C03).  Purely syntactic: file, enclosing fn, loop header text.  Props/C03.lean lists the loops the model accounts
-for; a new loop, or a changed bound expression, breaks `all_loops_known`."""
+"""Gen/Loops.lean: inventory of every loop in the terminal-stream code, the bitmap-font loaders and the palette
+importers whose trip count can depend on the input (C03).  Purely syntactic: file, enclosing fn, loop header text, the
+definition of a plain-identifier bound, and - when that definition is a RAW control-function parameter
+(`self.parsed_numbers[i]`) - the text of the guard that rejects the command before the loop (`{guard: …}`), because
+then the guard is the only thing that bounds the loop.  Props/C03.lean lists the loops the model accounts for; a new
+loop, a changed bound expression or a changed guard breaks `all_loops_known`."""
 import re, json
 from extract import src, HEADER, ExtractError
 
 FILES = ['src/parsers/mod.rs', 'src/parsers/ansi/mod.rs', 'src/parsers/ansi/ansi_commands.rs', 'src/parsers/ansi/dcs.rs',
-         'src/parsers/ansi/osc.rs', 'src/parsers/avatar/mod.rs', 'src/terminal_state.rs']
+         'src/parsers/ansi/osc.rs', 'src/parsers/avatar/mod.rs', 'src/terminal_state.rs', 'src/fonts.rs', 'src/palette_handling.rs']
 
 LOOP = re.compile(r'(\(\s*[^;{}]*?\.\.=?[^;{}]*?\)\s*(?:\.rev\(\))?\s*\.for_each|\bfor\s+[^{;]*?\s+in\s+[^{]*|\bwhile\s+[^{]*|\bloop\s*\{)')
 
@@ -23,6 +26,8 @@ def gen_loops():
         text = strip_tests(src(f))
         # drop comments
         text = re.sub(r'//[^\n]*', '', text)
+        # drop the contents of string literals ("error while opening file" is not a loop)
+        text = re.sub(r'"(?:[^"\\\n]|\\.)*"', '""', text)
         fn = '?'
         pos = 0
         fns = [(m.start(), m.group(1)) for m in re.finditer(r'\bfn\s+([A-Za-z0-9_]+)', text)]
@@ -38,8 +43,17 @@ def gen_loops():
                 back = text[max(0, m.start() - 1200):m.start()]
                 defs = list(re.finditer(r'let\s+(?:mut\s+)?' + ident + r'(?:\s*:\s*[A-Za-z0-9_]+)?\s*=\s*([^;]*);', back))
                 if defs:
-                    head += ' [' + ident + ' = ' + re.sub(r'\s+', ' ', defs[-1].group(1)).strip() + ']'
-            items.append(f'{f[4:]}::{fn}::{head}')
+                    dtext = re.sub(r'\s+', ' ', defs[-1].group(1)).strip()
+                    head += ' [' + ident + ' = ' + dtext + ']'
+                    if re.fullmatch(r'self\.parsed_numbers\[[^\]]*\]', dtext):
+                        # an unclamped parameter: the rejecting guard between the definition and the loop is the bound
+                        between = back[defs[-1].end():]
+                        guards = [g for g in re.finditer(r'\bif\s+([^{}]*?)\s*\{\s*return\s+Err', between)
+                                  if re.search(r'\b' + ident + r'\b', g.group(1))]
+                        head += ' {guard: ' + (re.sub(r'\s+', ' ', guards[-1].group(1)).strip() if guards else 'NONE') + '}'
+            item = f'{f[4:]}::{fn}::{head}'
+            k = sum(1 for i in items if i == item or i.startswith(item + ' #'))
+            items.append(item + (f' #{k + 1}' if k else ''))
     if len(items) < 20:
         raise ExtractError(f'only {len(items)} loops found')
     import hashlib
